@@ -126,6 +126,8 @@ impl Family for C08Family {
         }
         let strict = scn.batch == "strict";
         let mut last_reported: BTreeMap<Vec<u8>, u32> = BTreeMap::new();
+        // previous report + 1, valid while nothing but successful ceremonies touched the credential
+        let mut expected_next: BTreeMap<Vec<u8>, u32> = BTreeMap::new();
         let mut sig = crate::rng::Fnv::new();
         let mut nontrivial = false;
         for o in &rec.ops {
@@ -135,6 +137,7 @@ impl Family for C08Family {
                 OpKind::SetCounter { .. } => {
                     if let (OpResult::SetCounter(true), Some(id)) = (&o.result, &o.resolved.set_counter_id) {
                         last_reported.remove(id);
+                        expected_next.remove(id);
                         stats.probe("counter_edit_applied");
                     }
                     continue;
@@ -147,6 +150,12 @@ impl Family for C08Family {
                         if let Some(n) = reported_counter(o) {
                             if n != 0 {
                                 j.fail("registration-counter-nonzero", format!("op a{}#{}: registration reports signature counter {n}", o.actor, o.idx));
+                            }
+                        }
+                        // a credential created with a counter: the first assertion follows the registration's zero
+                        for (_, save, cred, _) in applied(&rec, o) {
+                            if save && cred.counter.is_some() {
+                                expected_next.insert(cred.id.clone(), 1);
                             }
                         }
                     }
@@ -209,6 +218,11 @@ impl Family for C08Family {
                         }
                     }
                 }
+                if !o.result.is_ok() {
+                    for f in &found {
+                        expected_next.remove(&f.id);
+                    }
+                }
                 if o.result.is_ok() && returned_id(o).as_ref() == Some(&sel.id) {
                     let reported = reported_counter(o).unwrap_or(0);
                     if has_ext {
@@ -240,7 +254,13 @@ impl Family for C08Family {
                                     j.fail("counter-not-increasing", format!("op a{}#{}: credential {} reported {prev} earlier and {reported} now", o.actor, o.idx, hex(&sel.id)));
                                 }
                             }
+                            if let Some(want) = expected_next.get(&sel.id) {
+                                if reported != *want {
+                                    j.fail("counter-not-plus-one", format!("op a{}#{}: credential {} reported {} in its previous successful ceremony (registration reports 0) and {reported} now, expected {want}", o.actor, o.idx, hex(&sel.id), want - 1));
+                                }
+                            }
                             last_reported.insert(sel.id.clone(), reported);
+                            expected_next.insert(sel.id.clone(), reported.saturating_add(1));
                         }
                         _ => {}
                     }
